@@ -63,7 +63,9 @@ ATOMS = [0, True, 1.5, "s", b"b", None]
 
 def atoms():
     return ATOMS + [FX.Base(), FX.Left(), FX.Both(), FX.Outer.Inner(), FX.MyList([1]), FX.MyDict(a=1), FX.WithMeta(), FX.Falsy(),
-                    FX.Base, FX.Both, int, len, FX.a_function, (lambda: 0), FX.a_generator()]
+                    FX.Base, FX.Both, int, len, FX.a_function, (lambda: 0), FX.a_generator(),
+                    # instances of generic / protocol classes, an enum member, a namedtuple, the singletons whose types have no builtin name
+                    FX.Repo1(), FX.Impl1(), FX.Color.RED, FX.Pair(1, "s"), NotImplemented, FX.Base.__dict__]
 
 
 def vals(depth=2, width=2, limit=None, rnd=None):
